@@ -1,0 +1,22 @@
+//go:build verif
+
+// Contracts for deductive verification (comment-only; compiled only with -tags verif).
+package bytesconv
+
+//@ pure func isDigit(c int) bool = '0' <= c && c <= '9'
+
+// fold10(s, lo, hi, v): value obtained by continuing the decimal accumulator v over s[lo:hi].
+//@ rec func fold10(s mem, lo pos(s), hi pos(s), v int) int = ite(lo >= hi, v, fold10(s, lo+1, hi, 10*v + (s[lo] - '0')))
+
+//@ func ParseUintBuf(b) v, n, err
+//@   props C01, C03
+//@   witness b = "21000000000000000000"
+//@   ensures err == nil ==> 0 < n && n <= len(b) && forall(k, 0, n, isDigit(b[k]))
+//@   ensures err == nil ==> (n == len(b) || !isDigit(b[n]))
+//@   top-ensures err == nil ==> v == fold10(b, 0, n, 0) && 0 <= v
+//@   ensures err != nil ==> v == -1
+//@   loop 0:
+//@     invariant 0 <= i && i <= n && n == len(b) && 0 <= v
+//@     invariant forall(k, 0, i, isDigit(b[k]))
+//@     invariant forall(h, i, n+1, fold10(b, i, h, v) == fold10(b, 0, h, 0))
+//@     decreases n - i
